@@ -553,6 +553,12 @@ namespace Pistache::Tcp
                 }
             }
         }
+        else
+        {
+            // Disarmed before it fired: the continuation that closes the
+            // descriptor will never run, so release it here.
+            ::close(entry.fd);
+        }
     }
 
     bool Transport::isPeerFd(Fd fd) const
